@@ -116,6 +116,15 @@ func (g *G) NumLeaf() Expr {
 			}
 		case 10:
 			if !g.NoCalls {
+				switch g.R.Intn(4) {
+				case 0:
+					return &CallE{Name: "H.GetI64"}
+				case 1:
+					bv := int64(g.R.Intn(60000))
+					return &CallE{Name: "H.In.Sum", Args: []Expr{g.intLit(), &Lit{V: bv, Text: strconv.FormatInt(bv, 10)}}}
+				case 2:
+					return &CallE{Name: "idn", Args: []Expr{intLeaves[g.R.Intn(len(intLeaves))]}}
+				}
 				return &CallE{Name: "idn", Args: []Expr{g.intLit()}}
 			}
 		default:
